@@ -20,19 +20,23 @@ def quote(qt, s):
     return qt + escape(qt[0], s) + qt
 
 
-def gen_words(rng):
-    n = rng.choice([1, 1, 1, 2, 2, 3, 5])
+LONG_UNQ = ["averyveryverylongunquotedword_0123456789", "x" * 30, "1.234567890123", "path/to/some/file.ext"]
+LONG_Q = ["a fairly long quoted string with several words in it", "q" * 45, "ends with backslash \\", 'has "both" kinds \'of\' quotes']
+
+
+def gen_words(rng, rich=False):
+    n = rng.choice([1, 1, 1, 2, 2, 3, 5] + ([8, 12, 16] if rich else []))
     ws = []
     multiline = False
     for _ in range(n):
         # after a quoted word that spans lines only quoted words can follow (an unquoted word, also a
         # continuation backslash, must stand on the line where the previous word STARTS)
         if multiline or rng.random() < 0.45:
-            v = rng.choice(QTEXT)
+            v = rng.choice(QTEXT + (LONG_Q if rich else []))
             ws.append([v, rng.choice(QUOTES)])
             multiline = multiline or "\n" in v
         else:
-            ws.append([rng.choice(UNQ), None])
+            ws.append([rng.choice(UNQ + (LONG_UNQ if rich else [])), None])
     return ws
 
 
@@ -57,6 +61,31 @@ SCOPE_ORDER = ["style", "help", "caption", "short_caption", "optional", "call", 
                "disable_delete", "expert_level", "alias"]
 
 
+LONG_HELPS = [
+    "This is a long help text that certainly does not fit on one line of forty or seventy-nine characters and has to be re-flowed by the printer.",
+    "hyphen-ated words-and-more-hyphens in-a-long help-text that-needs wrapping at-some-point or-other, really-really",
+    "tab\tseparated\twords\tin\ta\thelp\ttext\tthat\tis\tlong\tenough\tto\twrap\taround\tthe\twidth",
+    'quotes "inside" the \\ help \\" text with back\\slashes " and more " quotes \\ to make the escaped form longer than the raw one',
+    "w" * 120, "   " + "lead and trail blanks " * 5 + "   ", " " * 70, "two\nlines and\n\nmore lines of help text that go on and on and on and on and on",
+    "short-ish help", "", "x", "$var in help ${not} a variable", "semi;colon {brace} #hash = equals ! bang",
+]
+RICH_DEF_ATTRS = [("type", t, "x") for t in [
+    "int(value_min=0)", "int(value_min=-3, value_max=9, allow_none=False)", "int(allow_none=True)", "float(value_max=2.5)", "float",
+    "float(value_min=0, value_max=1, allow_none=False)", "ints(size=3)", "ints(size_min=2, size_max=4, value_min=0)",
+    "ints(value_max=10, allow_none_elements=True, allow_auto_elements=True)", "floats(allow_none_elements=True)", "floats(size_max=5)",
+    "choice", "strings", "words", "qstr", "path", "key", "None", "Auto"]] + [
+    ("optional", "Auto", "x"), ("multiple", "None", "x"), ("input_size", "Auto", "x"), ("expert_level", "4", "x"), ("deprecated", "False", "x"),
+    ("deprecated", "None", "x"), ("style", "noauto bold", "x"), ("alias", "None", "x"), ("caption", '"a b c"', "x")]
+RICH_SCOPE_ATTRS = [("sequential_format", "None", "x"), ("disable_delete", "True", "x"), ("optional", "Auto", "x"), ("expert_level", "3", "x"),
+                    ("style", "auto_align box", "x")]
+
+
+def rich_tables():
+    helps_d = [(n, quote('"', h), "x") for h in LONG_HELPS for n in ("help", "caption", "short_caption")]
+    helps_s = [(n, quote('"', h), "x") for h in LONG_HELPS for n in ("help", "caption")]
+    return DEF_ATTRS + RICH_DEF_ATTRS + helps_d, SCOPE_ATTRS + RICH_SCOPE_ATTRS + helps_s
+
+
 def gen_attrs(rng, table, p=0.35):
     out = []
     while rng.random() < p and len(out) < 4:
@@ -65,15 +94,20 @@ def gen_attrs(rng, table, p=0.35):
     return out
 
 
-def gen_atree(rng, depth=0, maxn=4):
+def gen_atree(rng, depth=0, maxn=4, rich=False, expert=False):
     nodes = []
+    dt, st = rich_tables() if rich else (DEF_ATTRS, SCOPE_ATTRS)
     for _ in range(rng.randint(0 if depth else 1, maxn)):
         if rng.random() < 0.6 or depth >= 3:
-            nodes.append({"k": "def", "name": rng.choice(NAMES), "dis": rng.random() < 0.12, "words": gen_words(rng),
-                          "attrs": gen_attrs(rng, DEF_ATTRS)})
+            n = {"k": "def", "name": rng.choice(NAMES), "dis": rng.random() < 0.12, "words": gen_words(rng, rich),
+                 "attrs": gen_attrs(rng, dt, 0.5 if rich else 0.35)}
         else:
-            nodes.append({"k": "scope", "name": rng.choice(NAMES), "dis": rng.random() < 0.12, "attrs": gen_attrs(rng, SCOPE_ATTRS, 0.25),
-                          "kids": gen_atree(rng, depth + 1, 3)})
+            n = {"k": "scope", "name": rng.choice(NAMES), "dis": rng.random() < 0.12, "attrs": gen_attrs(rng, st, 0.4 if rich else 0.25),
+                 "kids": gen_atree(rng, depth + 1, 3, rich, expert)}
+        if expert and rng.random() < 0.5:
+            lvl = rng.choice(["0", "1", "2", "3", "4"])
+            n["attrs"].append(["expert_level", lvl, ["int", lvl], False])
+        nodes.append(n)
     return nodes
 
 
